@@ -260,10 +260,10 @@ func (PKIForgeryEngine) Decode(raw json.RawMessage) (any, error) {
 var forgeryKinds = []string{
 	"A1-dg-byteflip", "A2-dg-replaced", "A3-dg-injected", "A4-hashlist-altered", "A5-hashlist-and-digest-altered",
 	"A6i-resigned-own-chain", "A6ii-resigned-claims-genuine-csca", "A6iii-genuine-ds-other-key", "A6iv-attacker-csca-other-country", "A6v-foreign-ds-swapped",
-	"A7-anchor-removed", "A7-anchor-same-ski-other-key", "A7-anchor-not-ca", "A7-anchor-no-keycertsign", "A7-anchor-critical-eku", "A7-anchor-unknown-critical", "A7-anchor-no-bc",
+	"A7-anchor-removed", "A7-anchor-same-ski-other-key", "A7-anchor-not-ca", "A7-anchor-no-keycertsign", "A7-anchor-critical-eku", "A7-anchor-unknown-critical", "A7-anchor-no-bc", "A7-anchor-bc-ca-false",
 	"A7-ds-no-keyusage", "A7-ds-no-digitalsignature", "A7-ds-unknown-critical",
 	"A7-time-ds-before", "A7-time-ds-after", "A7-time-csca-after", "A7-time-csca-before", "A7-country-mismatch", "A7-wrong-content-type", "A7-wrong-message-digest",
-	"A8-cardsec-econtent", "A8-cardsec-resigned-untrusted", "A8-cardsec-signedattrs",
+	"A8-cardsec-econtent", "A8-cardsec-resigned-untrusted", "A8-cardsec-signedattrs", "A8-cardsec-foreign-signer",
 	"A9-ml-tampered", "A9-ml-wrong-root", "A9-ml-signer-unchained", "A9-ml-signer-no-ku", "A9-ml-byte",
 	"A10-sod-byte", "A10-cardsec-byte",
 }
@@ -539,6 +539,9 @@ func (PKIForgeryEngine) Run(prop string, ci any) *core.Outcome {
 	case "A7-anchor-not-ca":
 		pool = poolOf(issueCSCA(func(s *pki.CertSpec) { s.IsCA, s.OmitBC = false, false; s.PathLen = -1 }).DER)
 		note = "BasicConstraints absent (cA defaults to false)"
+	case "A7-anchor-bc-ca-false":
+		// BasicConstraints present, cA = FALSE (implicit default or explicit), keyCertSign still asserted
+		pool = poolOf(issueCSCA(func(s *pki.CertSpec) { s.IsCA = false; s.BCFalse = 1 + c.A%2; s.PathLen = -1 }).DER)
 	case "A7-anchor-no-bc":
 		pool = poolOf(issueCSCA(func(s *pki.CertSpec) { s.IsCA, s.OmitBC = false, true; s.PathLen = -1 }).DER)
 	case "A7-anchor-no-keycertsign":
@@ -624,6 +627,21 @@ func (PKIForgeryEngine) Run(prop string, ci any) *core.Outcome {
 		_ = evilName
 		sp := w.CardSec.Spec
 		sp.Signer, sp.SignerCert, sp.Scheme, sp.DigestAlg = attackerKey, evilDS, attackerScheme, "SHA256"
+		mfF[chip.FidCardSecurity] = pki.BuildSignedData(sp, rng).DER
+	case "A8-cardsec-foreign-signer":
+		// EF.CardSecurity validly signed by ANOTHER country's document signer whose CSCA is also in the trust store
+		other := lds.Countries[(c.Spec.Country+2)%len(lds.Countries)][1]
+		fCA := pki.NewECKey(12, rng, false)
+		fName := pki.CountryName(other, "Sim Gov", "CSCA "+other)
+		fSKI := pki.SKIOf(fCA)
+		fCert := pki.Issue(pki.CertSpec{Serial: big.NewInt(21), Issuer: fName, Subject: fName, NotBefore: w.CSCANotBefore, NotAfter: w.CSCANotAfter, Key: fCA, SKI: fSKI, AKI: fSKI, IsCA: true, PathLen: 0, KeyUsageBits: []int{pki.KUKeyCertSign}}, fCA, attackerScheme, rng)
+		fDS := pki.Issue(pki.CertSpec{Serial: big.NewInt(22), Issuer: fName, Subject: pki.CountryName(other, "Sim Gov", "DS"), NotBefore: w.DSNotBefore, NotAfter: w.DSNotAfter, Key: attackerKey, SKI: pki.SKIOf(attackerKey), AKI: fSKI, OmitBC: true, PathLen: -1, KeyUsageBits: []int{pki.KUDigitalSignature}}, fCA, attackerScheme, rng)
+		cp := &cms.CombinedCertPool{}
+		cp.AddCertPool(w.Pool)
+		cp.AddCertPool(poolOf(fCert.DER))
+		pool = cp
+		sp := w.CardSec.Spec
+		sp.Signer, sp.SignerCert, sp.Scheme, sp.DigestAlg = attackerKey, fDS, attackerScheme, "SHA256"
 		mfF[chip.FidCardSecurity] = pki.BuildSignedData(sp, rng).DER
 	case "A9-ml-tampered", "A9-ml-wrong-root", "A9-ml-signer-unchained", "A9-ml-signer-no-ku", "A9-ml-byte":
 		return runMasterList(out, c, w, rng, log)
